@@ -1,9 +1,229 @@
-/- Driver handlers, group Load (stub; filled in by the group's model). -/
+/-
+  Driver handlers, group Load (C17, C20).
+
+  Wire format of a tree `J`:  null ↦ null, bool ↦ true/false, number ↦ {"n":"p/q"},
+  string ↦ "…", complex ↦ {"c":[re,im]}, list ↦ […], dict ↦ {"o":[[key, value], …]}
+  (keys in insertion order).
+  `trig` = {"cs":[[x,cos x,sin x],…], "rad":[[x, x·(π/180)],…], "deg2rad":[[x, deg2rad x],…]}:
+  the library values of the parameters of the model, computed by numpy in the harness; a
+  value that is asked for but missing answers the impossible cosine 2 (visible as a
+  disagreement, never silently defaulted to something plausible).
+-/
 import CC.Driver.Json
 import CC.Driver.LinAlg
-namespace CC
-open Lean
+import CC.Model.Load
+import CC.Model.Effects
+import CC.Gen.Effects
+namespace CC.Load
+open Lean CC
 
-def handlersLoad : List (String × Handler) := []
+partial def getJ (j : Json) : Except String J :=
+  match j with
+  | .null => pure .null
+  | .bool b => pure (.bool b)
+  | .str s => pure (.str s)
+  | .arr a => do pure (.arr (← a.toList.mapM getJ))
+  | .obj _ =>
+    match j.getObjVal? "n" with
+    | .ok n => do pure (.num (← getRat n))
+    | .error _ =>
+      match j.getObjVal? "c" with
+      | .ok c => do pure (.cx (← getGQ c))
+      | .error _ => do
+        let items ← getArr j "o"
+        let kv ← items.toList.mapM fun it => do
+          match it with
+          | .arr #[k, v] => do pure ((← k.getStr?), (← getJ v))
+          | _ => throw "bad dict item"
+        pure (.obj kv)
+  | .num _ => throw "bare JSON number in a tree (numbers travel as {\"n\":\"p/q\"})"
+
+partial def jsonJ : J → Json
+  | .null => .null
+  | .bool b => .bool b
+  | .num q => Json.mkObj [("n", jsonRat q)]
+  | .str s => .str s
+  | .cx z => Json.mkObj [("c", jsonGQ z)]
+  | .arr l => .arr (l.map jsonJ).toArray
+  | .obj kv => Json.mkObj [("o", .arr (kv.map fun (k, v) => Json.arr #[.str k, jsonJ v]).toArray)]
+
+def tableLookup (tbl : List (Rat × List Rat)) (x : Rat) (i : Nat) (dflt : Rat) : Rat :=
+  match tbl.find? (fun p => p.1 == x) with
+  | some (_, vs) => vs.getD i dflt
+  | none => dflt
+
+def getTable (j : Json) (k : String) : Except String (List (Rat × List Rat)) := do
+  match j.getObjVal? k with
+  | .error _ => pure []
+  | .ok a =>
+    let rows ← a.getArr?
+    rows.toList.mapM fun r => do
+      let xs ← (← r.getArr?).toList.mapM getRat
+      match xs with
+      | x :: vs => pure (x, vs)
+      | [] => throw "empty trig row"
+
+def getTrig (j : Json) : Except String Trig := do
+  match j.getObjVal? "trig" with
+  | .error _ => pure { cos := fun _ => 2, sin := fun _ => 2, rad := fun _ => 0, deg2rad := fun _ => 0 }
+  | .ok t =>
+    let cs ← getTable t "cs"
+    let rad ← getTable t "rad"
+    let d2r ← getTable t "deg2rad"
+    pure { cos := fun x => tableLookup cs x 0 2, sin := fun x => tableLookup cs x 1 2,
+           rad := fun x => tableLookup rad x 0 0, deg2rad := fun x => tableLookup d2r x 0 0 }
+
+def jsonLBranch (b : LBranch) : Json :=
+  Json.mkObj [("n1", jsonJ b.n1), ("n2", jsonJ b.n2), ("name", jsonJ b.name), ("ty", b.ty),
+              ("norton", b.norton), ("a", jsonJ b.a), ("b", jsonJ b.b)]
+
+def jsonComp (c : Comp) : Json :=
+  Json.mkObj [("ty", c.ty), ("id", jsonJ c.id), ("nodes", jsonJ c.nodes), ("value", jsonJ (.obj c.value))]
+
+def jsonCirc (c : Circ) : Json :=
+  Json.mkObj [("components", .arr (c.components.map jsonComp).toArray), ("ground", jsonJ c.ground)]
+
+def jsonInPlace (r : Option Err × J) : Json :=
+  Json.mkObj [("res", match r.1 with | none => Json.mkObj [("ok", jsonJ r.2)] | some e => Json.mkObj [("err", e.tag)]),
+              ("post", jsonJ r.2)]
+
+/-- op `c17_to_complex` {z, deg, trig} -/
+def h_toComplex : Handler := fun j => do
+  let T ← getTrig j
+  let z ← getJ (← j.getObjVal? "z")
+  let deg ← getBool j "deg"
+  let r := toComplex T z deg
+  pure (Json.mkObj [("res", jsonExcept jsonGQ r.1), ("post", jsonJ r.2)])
+
+/-- op `c17_load_network` {d, trig}: first load, post-state, second load of the same object -/
+def h_loadNetwork : Handler := fun j => do
+  let T ← getTrig j
+  let d ← getJ (← j.getObjVal? "d")
+  let r1 := loadNetwork T d
+  let r2 := loadNetwork T r1.2
+  let enc (r : Except Err (List LBranch)) := jsonExcept (fun bs => Json.arr (bs.map jsonLBranch).toArray) r
+  pure (Json.mkObj [("res", enc r1.1), ("post", jsonJ r1.2), ("res2", enc r2.1), ("post2", jsonJ r2.2)])
+
+/-- op `c17_generate_component` {c} -/
+def h_generateComponent : Handler := fun j => do
+  let c ← getJ (← j.getObjVal? "c")
+  let r := generateComponent c
+  pure (Json.mkObj [("res", jsonExcept jsonComp r.1), ("post", jsonJ r.2)])
+
+/-- op `c17_undictify_circuit` {c} -/
+def h_undictifyCircuit : Handler := fun j => do
+  let c ← getJ (← j.getObjVal? "c")
+  let r := undictifyCircuit c
+  pure (Json.mkObj [("res", jsonExcept jsonCirc r.1), ("post", jsonJ r.2)])
+
+/-- op `c17_dictify` {t, all} -/
+def h_dictify : Handler := fun j => do
+  let t ← getJ (← j.getObjVal? "t")
+  let all ← getBool j "all"
+  pure (jsonInPlace (if all then dictifyAll t else dictifyCxJ t))
+
+/-- op `c17_undictify` {t, all, trig} -/
+def h_undictify : Handler := fun j => do
+  let T ← getTrig j
+  let t ← getJ (← j.getObjVal? "t")
+  let all ← getBool j "all"
+  pure (jsonInPlace (if all then undictifyAll T t else undictifyCxJ T t))
+
+/-- op `c17_serialize` {t, fmt | file}: the model up to the library call — either the
+exception, or the library function and the tree handed to it -/
+def h_serialize : Handler := fun j => do
+  let t ← getJ (← j.getObjVal? "t")
+  let fmt ← match getStr j "file" with
+    | .ok f => pure (pathSuffix f)
+    | .error _ => getStr j "fmt"
+  -- the library call is recorded, not performed: `dumps lib t` answers the marker `lib`
+  let r := serialize (fun lib _ => .ok lib) t fmt
+  match r.1 with
+  | .error e => pure (Json.mkObj [("err", e.tag), ("post", jsonJ r.2), ("fmt", fmt)])
+  | .ok lib => pure (Json.mkObj [("lib", lib), ("tree", jsonJ r.2), ("post", jsonJ r.2), ("fmt", fmt)])
+
+/-- op `c17_deserialize` {parsed: {ok: tree} | {err: tag}, fmt | file, trig, circuit}: the
+library parse is performed by the harness and passed in -/
+def h_deserialize : Handler := fun j => do
+  let T ← getTrig j
+  let fmt ← match getStr j "file" with
+    | .ok f => pure (pathSuffix f)
+    | .error _ => getStr j "fmt"
+  let p ← j.getObjVal? "parsed"
+  let parsed : Except Err J ← match p.getObjVal? "ok" with
+    | .ok t => do pure (.ok (← getJ t))
+    | .error _ => do pure (.error (errOfName (← getStr p "err")))
+  let circuit := (getBool j "circuit").toOption.getD false
+  let lib := (Gen.Load.deserializers.find? (fun q => q.1 == fmt)).map (·.2)
+  if circuit then
+    pure (Json.mkObj [("res", jsonExcept jsonCirc (deserializeCircuit (fun _ _ => parsed) "" fmt)), ("lib", toJson lib)])
+  else
+    pure (Json.mkObj [("res", jsonExcept jsonJ (deserialize (fun _ _ => parsed) T "" fmt)), ("lib", toJson lib)])
+
+/-- op `c17_suffix` {file} -/
+def h_suffix : Handler := fun j => do
+  pure (Json.mkObj [("suffix", pathSuffix (← getStr j "file"))])
+
+/-- op `c17_tables`: the generated tables, as the compiled driver sees them -/
+def h_tables : Handler := fun _ => do
+  pure (Json.mkObj [
+    ("network_kinds", jsonStrs (Gen.Load.networkBranchTranslators.map (·.kind))),
+    ("circuit_kinds", jsonStrs (Gen.Load.circuitComponentTranslators.map (·.1))),
+    ("serializers", Json.arr (Gen.Load.serializers.map fun (a, b) => Json.arr #[.str a, .str b]).toArray),
+    ("deserializers", Json.arr (Gen.Load.deserializers.map fun (a, b) => Json.arr #[.str a, .str b]).toArray),
+    ("entry_copied", Gen.Load.entryCopied), ("component_copied", Gen.Load.componentCopied),
+    ("degree_in_place", Gen.Load.degreeInPlace)])
+
+/-! ### C20 -/
+
+/-- op `c20_effects`: the generated effect summary as compiled into the driver -/
+def h_effects : Handler := fun _ => do
+  let enc (t : List (String × List String)) :=
+    Json.arr (t.map fun (f, ws) => Json.arr #[.str f, jsonStrs ws]).toArray
+  pure (Json.mkObj [("effects", enc Gen.Effects.effects),
+                    ("mutable_defaults", enc (Gen.Effects.mutableDefaults.map fun d => (d.2.1, d.2.2))),
+                    ("global_writes", enc Gen.Effects.globalWrites),
+                    ("unknown_calls", Json.arr (Gen.Effects.unknownCalls.map fun (a, b) => Json.arr #[.str a, .str b]).toArray),
+                    ("assumed_callables", Json.arr (Gen.Effects.assumedCallables.map fun (a, b) => Json.arr #[.str a, .str b]).toArray),
+                    ("in_scope", jsonStrs Gen.Effects.inScope),
+                    ("exceptions", jsonStrs frameExceptions)])
+
+def jsonLoadOut : LoadOut → Json
+  | .cx r => Json.mkObj [("kind", "cx"), ("res", jsonExcept jsonGQ r)]
+  | .net r => Json.mkObj [("kind", "net"), ("res", jsonExcept (fun bs => Json.arr (bs.map jsonLBranch).toArray) r)]
+  | .comp r => Json.mkObj [("kind", "comp"), ("res", jsonExcept jsonComp r)]
+  | .circ r => Json.mkObj [("kind", "circ"), ("res", jsonExcept jsonCirc r)]
+  | .inPlace e i => Json.mkObj [("kind", "inplace"), ("cell", i),
+      ("res", match e with | none => Json.mkObj [("ok", Json.null)] | some x => Json.mkObj [("err", x.tag)])]
+  | .badOp => Json.mkObj [("kind", "badop")]
+
+/-- op `c20_history` {heap: [tree…], ops: [{fn, cell, deg}], trig}: the heap-passing machine
+of CC/Model/Effects.lean instantiated with the loader model; answers every step's output
+and the heap after it -/
+def h_history : Handler := fun j => do
+  let T ← getTrig j
+  let heap ← (← getArr j "heap").toList.mapM getJ
+  let ops ← (← getArr j "ops").toList.mapM fun o => do
+    pure ({ fn := ← getStr o "fn", args := [(← getStr o "param", ← getNat o "cell")],
+            flag := (getBool o "deg").toOption.getD false } : LoadOp)
+  let rec go (h : List J) : List LoadOp → List Json
+    | [] => []
+    | op :: r =>
+      let (h', out) := loadStep T h op
+      Json.mkObj [("out", jsonLoadOut out), ("writes", toJson op.writeCells),
+                  ("heap", Json.arr (h'.map jsonJ).toArray)] :: go h' r
+  pure (Json.arr (go heap ops).toArray)
+
+end CC.Load
+
+namespace CC
+open CC.Load
+
+def handlersLoad : List (String × Handler) :=
+  [("c17_to_complex", h_toComplex), ("c17_load_network", h_loadNetwork),
+   ("c17_generate_component", h_generateComponent), ("c17_undictify_circuit", h_undictifyCircuit),
+   ("c17_dictify", h_dictify), ("c17_undictify", h_undictify), ("c17_serialize", h_serialize),
+   ("c17_deserialize", h_deserialize), ("c17_suffix", h_suffix), ("c17_tables", h_tables),
+   ("c20_effects", h_effects), ("c20_history", h_history)]
 
 end CC
